@@ -263,7 +263,10 @@ def evalRename (cfg : TreeCfg) (t : TNode) (cwd : List String) (src : String) (d
     match ex with
     | some dnm =>
       -- the destination exists: fine only if it is the source entry itself (also a case-only change): no-op
-      if sameDir && cfg.same dnm snm then { tree := t, target := sp ++ [snm] } else failWith t [.alreadyExists]
+      if sameDir && cfg.same dnm snm then { tree := t, target := sp ++ [snm] }
+      -- a directory moved into its own subtree onto an existing name: both errors apply
+      else if node.isDir && isPrefixOf cfg (sp ++ [snm]) dp then failWith t [.alreadyExists, .invalidInput]
+      else failWith t [.alreadyExists]
     | none =>
       if node.isDir && isPrefixOf cfg (sp ++ [snm]) dp then failWith t [.invalidInput]
       else
